@@ -333,6 +333,12 @@ def replay_valid(p):
         elif what == 'adj':
             Mx = R.rand_adjacent_matrix(p['d'], seed=seed)
             bad = Mx.dtype != np.uint8 or not np.array_equal(Mx, Mx.T) or np.any(np.diag(Mx) != 0) or Mx.max() > 1
+        elif what == 'povm':
+            Es = R.rand_povm(p['d'], p['nt'], seed=seed)
+            bad = np.abs(Es.sum(axis=0) - np.eye(p['d'])).max() > 1e-8 or any(np.linalg.eigvalsh((E_ + E_.conj().T) / 2).min() < -1e-8 or np.abs(E_ - E_.conj().T).max() > 1e-8 for E_ in Es)
+        elif what == 'unitary':
+            U = R.rand_haar_unitary(p['d'], seed=seed)
+            bad = np.abs(U.conj().T @ U - np.eye(p['d'])).max() > 1e-8
         elif what == 'f2':
             v = R.rand_F2(3, not_zero=p.get('nz', False), not_one=p.get('no', False), seed=seed)
             bad = v.dtype != np.uint8 or v.max() > 1 or (p.get('nz') and not v.any()) or (p.get('no') and v.all())
@@ -411,7 +417,7 @@ def run(chk):
                 if havoc_first_matmul:
                     cnt = [0]
 
-                    def hook(r):
+                    def hook(r, a_=None, b_=None):
                         cnt[0] += 1
                         if cnt[0] > 1:
                             return r
@@ -493,6 +499,144 @@ def run(chk):
             return [('symmetric 0/1 uint8 with zero diagonal', ir.band(ir.band_all(S.as_sb(P[i, j] == P[j, i]).n for i in range(d) for j in range(d)),
                                                                       ir.band(ir.band_all(S.as_sb(P[i, i] == 0).n for i in range(d)), ir.band(ir.band_all(S.as_sb(e <= 1).n for e in P.reshape(-1)), ir.bconst(Mx.dtype == np.uint8)))))]
         valid(f'rand_adjacent_matrix({d})', lambda s, d=d: R.rand_adjacent_matrix(d, seed=s), adj_claims, ('c10v', {'what': 'adj', 'd': d}))
+    # ---- validity of generators that go through an eigen-solver / QR, with the kernel entering by its contract and generic matrix lemmas on fresh atoms
+    from .C01 import adj_inv
+
+    def mmul(*ms):
+        out = ms[0]
+        for m_ in ms[1:]:
+            out = np.dot(out, m_)
+        return out
+
+    def dagm(m_):
+        m_ = np.asarray(m_, dtype=object)
+        o = np.empty(m_.shape[::-1], dtype=object)
+        for i in range(m_.shape[0]):
+            for j in range(m_.shape[1]):
+                o[j, i] = S.as_sc(m_[i, j]).conjugate()
+        return o
+
+    def eqm(a_, b_):
+        return [H.eq_sc(x_, y_) for x_, y_ in zip(np.asarray(a_, dtype=object).reshape(-1), np.asarray(b_, dtype=object).reshape(-1))]
+
+    def eye_(n_):
+        return np.array([[S.as_sc(1 if i == j else 0) for j in range(n_)] for i in range(n_)], dtype=object)
+
+    def with_linalg(stubs):
+        over = dict(object.__getattribute__(fac, '_over'))
+        over['linalg'] = facade.Facade(np.linalg, stubs, 'numpy.linalg')
+        return facade.Facade(np, over, 'numpy')
+    chk.stub('validity by contract: np.linalg.eigh(A) -> symbolic (lambda > 0, V) [contract V^dag A V = diag(lambda), V V^dag = I, equivalently A = (V sqrt(D))(V sqrt(D))^dag]; '
+             'np.linalg.qr -> symbolic (Q, R) [contract Q^dag Q = I]; np.linalg.inv -> exact adjugate inverse (2x2)')
+    # generic lemmas for size 2 (fresh atoms)
+    r_ = 2
+    Vv, Sv_ = A.plain(H.cx_array('cgV', (r_, r_))), A.plain(H.herm_array('cgS', r_))
+    dv = [S.sc_var(f'cgd{i}') for i in range(r_)]
+    lv = [S.sc_var(f'cgl{i}') for i in range(r_)]
+    Dv = np.array([[dv[i] if i == j else SC(ir.ZERO) for j in range(r_)] for i in range(r_)], dtype=object)
+    Tv = mmul(Vv, Dv, dagm(Vv))
+    rpl = ('c10v', {'what': 'povm', 'd': 2, 'nt': 2})
+    chk.add('lemma L1 [2x2]: (V D V^dag) S (V D V^dag) == V D (V^dag S V) D V^dag (identity in V, D, S)', [], ir.band_all(eqm(mmul(Tv, Sv_, Tv), mmul(Vv, Dv, mmul(dagm(Vv), Sv_, Vv), Dv, dagm(Vv)))), key='matrix lemma', replay=rpl)
+    Wv = A.plain(H.cx_array('cgW', (r_, r_)))
+    chk.add('lemma L2a [2x2]: V^dag S V = diag(lambda), D_i^2 lambda_i = 1  =>  D (V^dag S V) D == I',
+            eqm(Wv, np.array([[lv[i] if i == j else SC(ir.ZERO) for j in range(r_)] for i in range(r_)], dtype=object)) + [H.eq_sc(dv[i] * dv[i] * lv[i], 1) for i in range(r_)],
+            ir.band_all(eqm(mmul(Dv, Wv, Dv), eye_(r_))), key='matrix lemma', replay=rpl)
+    Yv = A.plain(H.cx_array('cgY', (r_, r_)))
+    chk.add('lemma L2b [2x2]: Y = I, V V^dag = I  =>  V Y V^dag == I', eqm(Yv, eye_(r_)) + eqm(mmul(Vv, dagm(Vv)), eye_(r_)), ir.band_all(eqm(mmul(Vv, Yv, dagm(Vv)), eye_(r_))), key='matrix lemma', replay=rpl)
+
+    # rand_povm(2, 2): sum_n E_n == I, every E_n a Gram matrix
+    def povm_block(d, nt):
+        chk.configurations += 1
+        lam = [S.sc_var(f'pvl{d}{nt}_{j}') for j in range(d)]
+        V = H.cx_array(f'pvv{d}{nt}_', (d, d))
+        cap, mm_log = [], []
+
+        def eigh_stub(x):
+            cap.append(x)
+            return A.sym_array(np.array(lam, dtype=object), np.float64), V
+
+        def hook(r, a_, b_):
+            mm_log.append((r, a_, b_))
+            return r
+        fac2 = with_linalg({'eigh': eigh_stub})
+        pre = [(l_ > 0).n for l_ in lam]
+
+        def once():
+            _FRESH[0] = 0
+            TOTAL[0] = 0
+            del cap[:], mm_log[:]
+            A.MATMUL_HOOK[0] = hook
+            try:
+                return R.rand_povm(d, nt, seed=SymStream(f'v<povm{d}{nt}>'))
+            finally:
+                A.MATMUL_HOOK[0] = None
+        paths, st = H.run_paths(once, pre, np_facade=fac2, extra_globals=eg, feas_timeout_ms=1000, max_paths=8)
+        chk.add_path_stats(st)
+        rp = ('c10v', {'what': 'povm', 'd': d, 'nt': nt})
+        for pi, path in enumerate(paths):
+            if path.status != 'return':
+                chk.add(f'rand_povm({d},{nt}) raises {type(path.value).__name__}: {path.value}', pre + path.pc + path.facts, ir.FALSE, key='rand_povm raises', replay=rp)
+                continue
+            with path.resume():
+                ret = A.plain(path.value)
+                Bm = np.asarray(mm_log[0][1], dtype=object)            # tmp0 (nt, d, d)
+                Cm = np.asarray(mm_log[0][0], dtype=object)            # tmp0 @ tmp0^dag
+                Ssum = sum((Cm[n] for n in range(nt)), np.zeros((d, d), dtype=object))
+                dm = [S.as_sc(1) / lam[i].maximum(0).sqrt() for i in range(d)]
+                Dm = np.array([[dm[i] if i == j else SC(ir.ZERO) for j in range(d)] for i in range(d)], dtype=object)
+                Vp = A.plain(V)
+                Tm = mmul(Vp, Dm, dagm(Vp))
+                base = pre + path.pc + path.facts + [c for k_, c in path.side]      # after the reference terms: their sqrt / reciprocal facts are part of the context
+                ok = ret.shape == (nt, d, d) and len(cap) == 1
+                chk.add(f'rand_povm({d},{nt}) V1: the matrix handed to eigh is sum_n B_n B_n^dag', base, ir.band_all(eqm(A.plain(cap[0]), Ssum)) if ok else ir.FALSE, key='rand_povm invalid', replay=rp)
+                for n in range(nt):
+                    chk.add(f'rand_povm({d},{nt}) V2: element {n} == T (B_n B_n^dag) T with T = V D V^dag, D = diag(1/sqrt(lambda)); D_i^2 lambda_i == 1', base,
+                            ir.band_all(eqm(ret[n], mmul(Tm, Cm[n], Tm)) + [H.eq_sc(dm[i] * dm[i] * lam[i], 1) for i in range(d)]) if ok else ir.FALSE, key='rand_povm invalid', replay=rp)
+                    chk.add(f'rand_povm({d},{nt}) V3: element {n} == (T B_n)(T B_n)^dag (Gram matrix, hence positive semidefinite)', base,
+                            ir.band_all(eqm(ret[n], mmul(mmul(Tm, Bm[n]), dagm(mmul(Tm, Bm[n]))))) if ok else ir.FALSE, key='rand_povm invalid', replay=rp)
+                chk.add(f'rand_povm({d},{nt}) V4: sum_n T C_n T == T (sum_n C_n) T (the elements add up to T S T; lemmas L1, L2a, L2b give T S T = I)', base,
+                        ir.band_all(eqm(sum((ret[n] for n in range(nt)), np.zeros((d, d), dtype=object)), mmul(Tm, Ssum, Tm))) if ok else ir.FALSE, key='rand_povm invalid', replay=rp)
+    povm_block(2, 2)
+
+    # rand_haar_unitary(2): Q from QR with column signs
+    def unitary_block(d):
+        chk.configurations += 1
+        Q = H.cx_array(f'huq{d}_', (d, d))
+        Rm = H.cx_array(f'hur{d}_', (d, d))
+        fac2 = with_linalg({'qr': lambda x, *a_, **k_: (Q, Rm)})
+
+        def once():
+            _FRESH[0] = 0
+            TOTAL[0] = 0
+            return R.rand_haar_unitary(d, seed=SymStream(f'v<unitary{d}>'))
+        paths, st = H.run_paths(once, [], np_facade=fac2, extra_globals=eg, feas_timeout_ms=1000, max_paths=64)
+        chk.add_path_stats(st)
+        rp = ('c10v', {'what': 'unitary', 'd': d})
+        Qp = A.plain(Q)
+        qq = eqm(mmul(dagm(Qp), Qp), eye_(d))
+        for pi, path in enumerate(paths):
+            if path.status != 'return':
+                chk.add(f'rand_haar_unitary({d}) raises {type(path.value).__name__}: {path.value}', path.pc + path.facts, ir.FALSE, key='rand_haar_unitary raises', replay=rp)
+                continue
+            with path.resume():
+                U = A.plain(path.value)
+                base = path.pc + path.facts
+                # column j of the result is +/- column j of Q
+                cl = []
+                for j in range(d):
+                    plus = ir.band_all(H.eq_sc(U[i, j], Qp[i, j]) for i in range(d))
+                    minus = ir.band_all(H.eq_sc(U[i, j], -S.as_sc(Qp[i, j])) for i in range(d))
+                    cl.append(ir.bor(plus, minus))
+                chk.add(f'rand_haar_unitary({d}) U1: every column is +/- the column of Q (path {pi})', base, ir.band_all(cl), key='rand_haar_unitary invalid', replay=rp)
+        ph = [S.sc_var(f'huph{d}_{j}') for j in range(d)]
+        Ph = np.array([[ph[i] if i == j else SC(ir.ZERO) for j in range(d)] for i in range(d)], dtype=object)
+        Gv = A.plain(H.cx_array(f'huG{d}_', (d, d)))
+        chk.add(f'lemma U2 [{d}x{d}]: (Q P)^dag (Q P) == P (Q^dag Q) P for a real diagonal P (identity)', [], ir.band_all(eqm(mmul(dagm(mmul(Qp, Ph)), mmul(Qp, Ph)), mmul(Ph, mmul(dagm(Qp), Qp), Ph))), key='matrix lemma', replay=rp)
+        chk.add(f'lemma U3 [{d}x{d}]: Q^dag Q = I, P_j^2 = 1  =>  P (Q^dag Q) P == I', eqm(Gv, eye_(d)) + [H.eq_sc(ph[j] * ph[j], 1) for j in range(d)], ir.band_all(eqm(mmul(Ph, Gv, Ph), eye_(d))), key='matrix lemma', replay=rp)
+    unitary_block(2)
+    if not quick:
+        unitary_block(3)
+        povm_block(2, 3)
     chk.extra['paths_truncated_by_draw_budget'] = TRUNCATED[0]
     chk.extra['generators_with_exploration_truncated_at_64_paths'] = PATH_TRUNC[0]
     chk.bound(draw_budget=f'{SymStream.BUDGET} draw calls per stream and path, {2 * SymStream.BUDGET} over all streams of one execution (rejection loops unrolled that far); at most 65 paths per generator (beyond that the explored paths are still checked)')
